@@ -22,6 +22,7 @@ const FS_FAULTS: &[&str] = &[
     "only_side_files",
     "stale_output",
     "odd_dir_name",
+    "stale_results",
 ];
 const ODD_NAMES: &[&str] = &["Proyecto [rev2]", "casa (copia) 1", "obra?", "edif*", "Año 2024 ñ", "a b\tc"];
 const RUST_LOGS: &[Option<&str>] = &[None, None, Some("error"), Some("warn"), Some("info"), Some("debug"), Some("trace")];
@@ -61,13 +62,13 @@ fn env_case(rng: &mut Rng, projects: &[String], faults: bool) -> Value {
 
 fn run_env(jobs: Vec<Value>, scratch: &std::path::Path) -> Vec<Outcome> {
     let n = jobs.len();
-    let chunks: Vec<Chunk> = orch::chunked(jobs.into_iter().enumerate().collect(), 6, vec![]);
+    let chunks: Vec<Chunk> = orch::chunked(jobs.into_iter().enumerate().collect(), 6, vec![("VERIF_HASH_SEED".to_string(), "0".to_string())]);
     let opts = RunOpts {
         engine: "env".into(),
         workers: orch::n_workers(),
         job_timeout_ms: 300_000,
         mem_mb: 0,
-        use_shim: false,
+        use_shim: true,
     };
     let res = orch::run_chunks(chunks, &opts, scratch);
     (0..n)
@@ -176,6 +177,9 @@ pub fn run(tier: &str, seed: u64, replay: Option<String>) -> i32 {
             env_jobs.push(json!({"t":"env","project":p,"tool":tool,"use_extra":extra,"fs":[],"rust_log":Value::Null,
                 "path_form":"abs","hash_seed":0,"fake_time":Value::Null,"lang":Value::Null,"thor_r":true,"thor_v":0}));
         }
+        // result files that are older than the last edit of the project (windows renamed since)
+        env_jobs.push(json!({"t":"env","project":p,"tool":"hulc2model","use_extra":true,"fs":["stale_results"],"rust_log":Value::Null,
+            "path_form":"abs","hash_seed":12345,"fake_time":Value::Null,"lang":Value::Null,"thor_r":false,"thor_v":0}));
         // the documented use: stdout redirected to a file; and an interactive terminal
         for dev in ["file", "tty"] {
             env_jobs.push(json!({"t":"env","project":p,"tool":"hulc2model","use_extra":dev == "file","fs":[],"rust_log":Value::Null,
